@@ -82,7 +82,10 @@ def run(ctx, rep):
                              why="got - expected = %s" % A.show(alg.padd(got, want, -1), 3)[:500])
         tot = A.assume_conditions(A.pw(get(bc, "prod", "epus_t")), both)
         key = "C12/b/total/lm=%d" % lm
-        if tot == alg.padd(gotI, gotC):
+        # L1 (hand-proved, a, p1, p2 >= 0): min(a, p1 + p2) = min(p1, a) + min(p2, a - min(p1, a))
+        ptot = A.pw(get(bc, "prod", "t"))      # = p1 + p2 by C01/O8
+        alts = (alg.pmul(f, A.pmin(use, alg.padd(p1, p2))), A.assume_conditions(alg.pmul(f, A.pmin(use, ptot)), both), A.assume_conditions(alg.pmul(f, A.pmin(ptot, use)), both))
+        if tot == alg.padd(gotI, gotC) or (tot in alts and gotI == alg.pmul(f, u1) and gotC == alg.pmul(f, u2)):
             rep.discharged(key, "used production = on-site part + cogenerated part")
         else:
             rep.violated(key, "used production = on-site part + cogenerated part", construct=where,
